@@ -353,7 +353,7 @@ def run(tier, seed, replay=None):
             fail('thicken', args, 'raised %s' % type(e_).__name__)
 
     # ---------------------------------------------------------------- L1: sections vs the extracted model
-    corr_bad = None
+    corr_bad = C.Corr()
     lines = []
     for kind, spec, sel, snap in l1[: (150 if tier == 'quick' else 100000)]:
         lines.append('obj_section %s %s' % (O.obj_tokens(spec), C.ilist([2 if s is None else (0 if s == 0 else 1) for s in sel])))
@@ -363,10 +363,10 @@ def run(tier, seed, replay=None):
         nl1 += 1
         mo = O.read_obj(tk)
         dfr = O.snaps_differ(snap, mo, rel=1e-12)
-        if dfr and corr_bad is None:
-            corr_bad = {'what': 'L1: section %s differs from the model: %s' % (sel, dfr), 'op': 'section', 'args': dict(obj=O.spec_json(spec), selector=sel)}
+        if dfr and corr_bad.open():
+            corr_bad += {'what': 'L1: section %s differs from the model: %s' % (sel, dfr), 'op': 'section', 'args': dict(obj=O.spec_json(spec), selector=sel)}
     dist['op']['L1 comparisons'] = nl1
-    rc = V.finish(l0, corr_bad if not V.fail else None)
+    rc = V.finish(l0, corr_bad)
     C.write_evidence(PID, tier, seed, l0, {
         'evaluations': evals, 'distinct_nontrivial': len(nontriv),
         'rule': 'random objects (pardim 1-3, rational or not, open in the fixed directions, periodic allowed in the free ones): every section selector incl. keyword forms, corners in both '
